@@ -264,9 +264,22 @@ def rule_b_hook(ctx, ix, inv):
     clears = [c for c in calls_in(f.node) if inv.classify_call(f.module, c)]
     if not clears:
         return
+    # everything computed from the assigned value (a comparison result kept in a local, ...) still "looks at the value"
+    tainted = {value_p}
+    for _ in range(4):
+        for st in ast.walk(f.node):
+            if isinstance(st, ast.Assign) and any(isinstance(n, ast.Name) and n.id in tainted for n in ast.walk(st.value)):
+                for t in st.targets:
+                    for n in ast.walk(t):
+                        if isinstance(n, ast.Name):
+                            tainted.add(n.id)
     for c in clears:
         gs = [g for g, br in guard_chain(pm, c, f.node) if isinstance(g, ast.If)]
-        bad = [unparse(g.test) for g in gs if any(isinstance(n, ast.Name) and n.id == value_p for n in ast.walk(g.test))]
+        bad = [unparse(g.test) for g in gs if any(isinstance(n, ast.Name) and n.id in tainted for n in ast.walk(g.test))]
+        # a handler that decides whether to invalidate is a guard as well
+        tries = [g for g, br in guard_chain(pm, c, f.node) if isinstance(g, (ast.Try, ast.ExceptHandler))]
+        if tries:
+            bad.append('an exception raised while looking at the value')
         ctx.ob(R, f.construct, 'the hook invalidates on every re-assignment, whatever the new value is', not bad,
                detail='SubsetState.__setattr__ invalidates only under `%s`, which looks at the assigned value: editing a region / '
                       'array in place and assigning the same object back (state.roi = roi) keeps the memoised masks' % ' and '.join(bad),
